@@ -53,13 +53,15 @@ def closure_dependents(ms, names):
     return dep
 
 
-def variant(ck, ms):
+def variant(ck, ms, whole_module=False):
     """copy of ms with 1..3 definitions replaced by parseable-but-unsupported ones (same names)"""
     import copy
     v = copy.deepcopy(ms)
     defs = v.all_defs()
     k = min(len(defs), ck.rng.randint(1, 3))
     chosen = ck.rng.sample(defs, k)
+    if whole_module:
+        chosen = list(v.modules[-1][2])
     for d in chosen:
         if d.is_value:
             kind, mk, st = ck.rng.choice(MG.UNSUPPORTED_VALUES)
@@ -67,9 +69,11 @@ def variant(ck, ms):
             kind, mk, st = ck.rng.choice(MG.UNSUPPORTED)
         d.text = mk(d.name)
         d.kind, d.status, d.deps = kind, st, []
-        if kind == 'class':
-            d.shown = d.name.upper().replace('-', '')
-    return v, [d.name for d in chosen]
+        if kind.startswith('macro'):
+            # the definition is now known under the macro's name (it decides its place in the name-keyed map)
+            d.old_name = d.name
+            d.name = d.text.split(' ')[0]
+    return v, [getattr(d, 'old_name', d.name) for d in chosen]
 
 
 def run(ck):
@@ -90,7 +94,14 @@ def run(ck):
         base_src = MG.render(ms)
         cases.append({'op': 'compile', 'sources': base_src})
         meta.append(('base', ms, None, k))
-        for _ in range(3):
+        for vi in range(3):
+            if vi == 2 and k % 4 == 0:
+                # a module all of whose definitions are unsupported
+                small = MG.gen_module_set(ck.rng, 50 + k % 40, nmods=2, max_defs=2, cross=False)
+                v, replaced = variant(ck, small, whole_module=True)
+                cases.append({'op': 'compile', 'sources': MG.render(v)})
+                meta.append(('variant-whole-module', v, replaced, None))
+                continue
             v, replaced = variant(ck, ms)
             cases.append({'op': 'compile', 'sources': MG.render(v)})
             meta.append(('variant', v, replaced, k))
@@ -171,13 +182,14 @@ def run(ck):
             per_def.update({d.name: json.dumps(v, sort_keys=True) for d, v in ((d, by[d.name]) for d in defs)})
         if kind == 'base':
             base_items[k] = per_def
-        else:
+        elif kind == 'variant':
             base = base_items.get(k)
             if base is None:
                 continue
             affected = closure_dependents(ms, info)
+            renamed = {d.name for d in ms.all_defs() if hasattr(d, 'old_name')}
             for name, js in per_def.items():
-                if name in affected:
+                if name in affected or name in renamed:
                     continue
                 if base.get(name) != js:
                     ck.violation('impl-violation', src, definition=name, replaced=info,
@@ -199,7 +211,11 @@ def run(ck):
         expected_present = {d.name for d in ms.all_defs() if d.status in (MG.PRESENT, MG.PRESENT_WARNED)}
         expected_warn = sum(1 for d in ms.all_defs() if d.status in (MG.PRESENT_WARNED, MG.WARNED_VALIDATE, MG.WARNED_GEN))
         missing = sorted(expected_present - present)
-        if missing and nwarn <= expected_warn:
+        if not missing and nwarn < expected_warn:
+            ck.violation('impl-violation', cases[i]['sources'][0], warnings=res[i].get('warnings'), expected_warnings=expected_warn,
+                         why='%d definitions are built to have no bindings and a warning, but only %d warnings are returned: a definition is '
+                             'neither represented nor the subject of a warning' % (expected_warn, nwarn))
+        elif missing and nwarn <= expected_warn:
             ck.violation('impl-violation', cases[i]['sources'][0], missing=missing, warnings=res[i].get('warnings'),
                          why='definitions %s have no bindings and no warning accounts for them' % missing)
         else:
